@@ -65,6 +65,9 @@ def check_stateless(db, chk, rule: str, modnames: Iterable[str], scope: Optional
             chk.ob(rule, f"{mn}:{q}: no per-iteration value is latched from the first iteration of a loop (first rank's data reused for the others)", not la, mod.loc(f), found=la,
                    accepted="values derived from the loop variables are recomputed in every iteration", why="e.g. a name->type map built from the first rank's kernels leaves later ranks' new names unclassified",
                    key=f"{mn}:{q}|latch", nontrivial=False)
+            sv_ = H.shared_mutable_values(f)
+            chk.ob(rule, f"{mn}:{q}: no container is built whose keys / slots share one mutable object", not sv_, mod.loc(f), found=sv_ or "none", accepted="one fresh list / dict per key ({k: [] for k in keys}, defaultdict(list))",
+                   why="dict.fromkeys(ranks, []) gives every rank the SAME list: what is appended for one rank shows up under all of them", key=f"{mn}:{q}|shared-mutable", nontrivial=False)
             cf_ = H.cross_iteration_flows(f)
             chk.ob(rule, f"{mn}:{q}: a rank's result does not read what an earlier rank's iteration stored (per-rank loops are independent)", not cf_, mod.loc(f), found=cf_,
                    accepted="containers filled in a per-rank loop are only read after the loop (or under the key stored earlier in the same iteration)",
@@ -170,8 +173,9 @@ def check_facade_stateless(db, chk, rule: str, methods: Iterable[str]) -> None:
             if isinstance(n, ast.Call) and isinstance(n.func, ast.Attribute) and n.func.attr in H._MUT_METHODS and isinstance(n.func.value, ast.Attribute) \
                     and isinstance(n.func.value.value, ast.Name) and n.func.value.value.id == "self":
                 bad.append(" ".join(ast.unparse(n).split())[:90])
+        bad += H.shared_mutable_values(f)
         decos = [ast.unparse(d) for d in f.decorator_list if any(k in ast.unparse(d) for k in ("cache", "memo"))]
-        chk.ob(rule, f"TraceAnalysis.{name} keeps no state on the TraceAnalysis object (no attribute store, no self.__dict__, no memoising decorator)", not bad and not decos, m.loc(f),
+        chk.ob(rule, f"TraceAnalysis.{name} keeps no state on the TraceAnalysis object and gives every rank its own containers (no attribute store, no self.__dict__, no memoising decorator, no dict.fromkeys(keys, []))", not bad and not decos, m.loc(f),
                found=sorted(set(bad)) + decos or "stateless", accepted="every call recomputes from self.t and its arguments",
                why="a result cache keyed by (rank, streams, ...) but not by every argument (e.g. consecutive_kernel_delay) answers a later call with the earlier call's result",
                key=f"{FACADE}:TraceAnalysis.{name}|facade-state")
